@@ -88,10 +88,10 @@ CHECKS = {
         technique="bounded-exhaustive enumeration of transport fragmentations (every uniform read size, every two-way and three-way cut of every handshake act and record) and of partial-write scripts (every two- and three-way partition of a record separated by timeouts) against the unfragmented run",
         text="A fragmented handshake / record must behave exactly like the unfragmented one; repeated Flush after partial writes must emit exactly the record once, report exactly the plaintext length in total, and WriteMessage must refuse a new record while one is pending.",
         note="Three-way cuts of acts longer than 120 bytes use field-boundary offsets and every 37th offset."),
-    "C17": dict(built=True, engine=E2, level=EX, design="4/C17",
-        technique="bounded-exhaustive enumeration of the mnemonic codec position-wise (every value of every word, every bit of the entropy) and of SID derivation over all ordered pairs of 8 static keys x 4 secrets",
-        text="decode(encode(e)) keeps the 110 significant bits and zeroes the rest; encode(decode(w)) = w; client and server derive the same id before and after pairing, send/receive ids cross over and differ only in the direction bit, distinct secrets give distinct ids.",
-        note="The 2^110 domain is covered position-wise, not in full (the codec is a plain 11-bit-per-word bit stream)."),
+    "C17": dict(built=True, engine=E2, level=MC, design="4/C17",
+        technique="bounded-exhaustive enumeration of the mnemonic codec position-wise (every value of every word, every bit of the entropy) and of SID derivation over all ordered pairs of 8 static keys x 4 secrets; plus stateless model checking (deviation-bounded DFS under the controlled scheduler) of consecutive sessions through the real Server/Client over a fake relay, judging the stream ids every handed-out connection uses",
+        text="decode(encode(e)) keeps the 110 significant bits and zeroes the rest; encode(decode(w)) = w; client and server derive the same id before and after pairing, send/receive ids cross over and differ only in the direction bit, distinct secrets give distinct ids. At the relay: in every execution of three consecutive sessions (first contact, same-rendezvous reconnects through RefreshServerConn/RefreshClientConn, the move after a version-2 pairing) with at most the listed scheduling deviations, no connection uses one stream for both directions, the two sides are mirrored, all sessions meet, and both sides move after the pairing.",
+        note="The 2^110 domain is covered position-wise, not in full (the codec is a plain 11-bit-per-word bit stream). The relay part is exhaustive within the stated deviation bounds on an instrumented copy (see C05/C11)."),
     "C20": dict(built=True, engine=E2, level=MC, design="4/C20",
         technique="explicit-state breadth-first search over TimeoutManager event histories under a virtual clock (synctest), canonicalised states, invariants evaluated on every transition of the real code",
         text="BFS to depth 7 (quick) / 9 (thorough) over Sent/Received/sleep events for 12 adaptive and 2 static configurations: the adaptive timeout never drops below 1 s, the base changes only on a response to a never-retransmitted packet (and to max(1s, multiplier x RTT)), boosts happen only on a retransmitted DATA and at most once per base interval, a fresh sample clears the boost, a static timeout never changes.",
